@@ -69,6 +69,19 @@ def gen_case(rng, i):
     inv = ["i", "j"][: rng.randint(1, 2)]
     outv = ["o", "p"][: rng.randint(1, 2)]
     pt = {v: rng.choice([0, 1, -1, 2, 0.5, -2.5, 4]) for v in inv + outv}
+    near = None
+    if i % 4 == 1:
+        # an opposite pair whose bounds are NEARLY equal / nearly negated: they differ by a few units of the fourth significant
+        # digit (mantissa in the upper half), so they print differently and must not be folded into '=' or '|.|'
+        B, u = rng.choice([(9992, 1), (5002, 1), (7.503, 0.001), (0.6004, 0.0001), (85.02, 0.01)])
+        v = rng.choice(inv + outv)
+        sg = rng.choice([1, -1])
+        k = rng.choice([1, 2, 3])
+        if rng.random() < 0.5:
+            pt[v] = sg * B
+            near = (v, [({v: sg}, round(B + k * u, 6)), ({v: -sg}, round(-(B - k * u), 6))])                 # B-ku <= sg*v <= B+ku
+        else:
+            near = (v, [({v: sg}, round(B + k * u, 6)), ({v: -sg}, round(B - k * u, 6))])                    # -(B-ku) <= sg*v <= B+ku
     a = [rrow(rng, inv, wild, pt) for _ in range(rng.randint(0, 2))]
     g = [rrow(rng, inv + outv, wild, pt) for _ in range(rng.randint(1, 3))]
     for lst in (a, g):
@@ -116,6 +129,12 @@ def gen_case(rng, i):
                 lst[j] = (co, c2) if c2 >= lhs_at(co, pt) else lst[j]
                 if lst[j][1] == c2:
                     lst.insert(rng.randint(j + 1, len(lst)), ({**{v: -a for v, a in co.items()}, w: e}, c2))
+    if near:
+        lst = a if (near[0] in inv and rng.random() < 0.5) else g
+        pair = near[1] if rng.random() < 0.5 else list(reversed(near[1]))
+        j = rng.randint(0, len(lst))
+        lst.insert(j, pair[0])
+        lst.insert(rng.randint(j + 1, len(lst)), pair[1])
     return {"inv": inv, "outv": outv, "a": a, "g": g, "wild": wild}
 
 
